@@ -285,12 +285,14 @@ class SimQueue:
         if kind is None and stream.error is None:
             proc.exit_time = max([t_end] + [m.t_avail for m in msgs])
             proc._exitcode = 0
-        elif kind == "exception" or (kind is None and stream.error is not None):
-            # a raising worker flushes what it has enqueued (feeder thread joined at interpreter exit)
+        elif kind in ("exception", "exit0") or (kind is None and stream.error is not None):
+            # a raising worker flushes what it has enqueued (feeder thread joined at interpreter exit); "exit0" is a
+            # worker that leaves through SystemExit(0) (sys.exit() in user code, a graceful SIGTERM handler inherited
+            # from the host application): no completion marker, but exit code 0
             proc.exit_time = max([t_end] + [m.t_avail for m in msgs])
-            proc._exitcode = 1
+            proc._exitcode = 0 if kind == "exit0" else 1
             if kind:
-                w.fired["crash-exception"] = w.fired.get("crash-exception", 0) + 1
+                w.fired["crash-" + kind] = w.fired.get("crash-" + kind, 0) + 1
         elif kind == "kill":
             proc.exit_time = t_end
             proc._exitcode = -9
